@@ -895,6 +895,7 @@ _BUILTINS = {
     "str": TypeObj("str", lambda x="": "<str>" if not isinstance(x, str) else x),
     "list": TypeObj("list", _list), "tuple": TypeObj("tuple", _tuple), "dict": TypeObj("dict", _dict),
     "set": TypeObj("set", _set),
+    "map": (lambda f, *its: [cur().call(f, list(args), {}) for args in _zip(*its)] if not any(isinstance(cur().as_iterable(i), SymSeq) and not isinstance(cur().as_iterable(i).n, int) for i in its) else (_ for _ in ()).throw(Unsupported("map over a sequence of symbolic length"))),
     "zip": _zip, "enumerate": _enumerate, "all": _all, "any": _any, "sum": _sum, "sorted": _sorted,
     "next": _next, "print": _print, "round": _round, "callable": _callable, "type": _type,
     "getattr": _getattr, "reversed": _reversed, "iter": lambda x: GenList(cur().as_iterable(x)),
@@ -1236,6 +1237,24 @@ class _NP:
 
     def square(self, x):
         return x * x
+
+    def flatnonzero(self, x):
+        """indices of the non-zero (true) entries of a 1-d array, in order: mask selection from arange (D6)"""
+        if not (isinstance(x, Arr) and x.ndim == 1):
+            raise Unsupported("np.flatnonzero of a non 1-d array")
+        mask = x if x.kind == "bool" else elementwise(lambda v: b_not(V.num_eq(v, 0)), x, dtype="bool")
+        return A.index_array(self.arange(x.shape[0]), mask)
+
+    def round(self, x, decimals=0):
+        """rounding to `decimals` places as a real function: floor(x * 10^d + 1/2) / 10^d (ties upward; NumPy rounds ties to even -
+        the two differ only on exact ties, which the callers under contract do not depend on)"""
+        if not isinstance(decimals, int):
+            raise Unsupported("np.round with symbolic decimals")
+        sc = 10 ** decimals
+        f = lambda v: V.num_div(num_floor(lift(v) * sc + Fraction(1, 2)), sc) if decimals else num_floor(lift(v) + Fraction(1, 2))
+        return elementwise(f, x, dtype="float") if isinstance(x, Arr) else f(x)
+
+    around = round
 
     def ascontiguousarray(self, x, dtype=None):
         """returns the array itself when it already is an ndarray of that type (no copy): writes through the result reach the argument"""
